@@ -82,7 +82,12 @@ impl ArrivalCurvePrefix {
                 .map(|(i, _)| i)
                 .next();
             let i = step.unwrap_or(self.steps.len());
-            self.steps[i - 1].1
+            // no step at or before delta (e.g., no steps at all): no arrivals
+            if i == 0 {
+                0
+            } else {
+                self.steps[i - 1].1
+            }
         }
     }
 }
